@@ -41,3 +41,4 @@ open Pandora.C11
 #print axioms Pandora.C11KernelsSteps.cbcaStep3_generated_eq
 #print axioms Pandora.C11KernelsSteps.cbcaStep2_generated_eq
 #print axioms Pandora.C11KernelsSteps.cbcaStep4_generated_eq
+#print axioms Pandora.C11KernelsSteps.cbcaSteps_generated_chain
